@@ -19,7 +19,14 @@ for D in "$WT"/SEEDED/m*; do
   # 2. apply patch: existing suite must pass (demo excluded), demo must fail
   git apply "$D/patch.diff"
   mv "$DEMO" /tmp/seed-$P-$K-demo.rs
-  timeout 900 cargo test --workspace --no-fail-fast --offline > /tmp/seed-$P-$K-suite.log 2>&1; SU=$?
+  # the pinned test drain_into_test_zero_sized (100 threads, fixed 1 s sleep) flakes on the
+  # pristine tree too when the machine is loaded: up to three attempts, one green run counts
+  for ATT in 1 2 3; do
+    timeout 900 cargo test --workspace --no-fail-fast --offline > /tmp/seed-$P-$K-suite.log 2>&1; SU=$?
+    [ $SU -eq 0 ] && break
+    grep -q "panicked at /rustc" /tmp/seed-$P-$K-suite.log && continue   # compiler ran out of threads
+    grep -E "^test .* FAILED" /tmp/seed-$P-$K-suite.log | grep -v drain_into_test_zero_sized | grep -q . && break
+  done
   timeout 300 cargo build --offline --features verif > /tmp/seed-$P-$K-verifbuild.log 2>&1; VB=$?
   cp /tmp/seed-$P-$K-demo.rs "$DEMO"
   timeout 600 $RUN > /tmp/seed-$P-$K-patched.log 2>&1; PA=$?
